@@ -17,7 +17,11 @@ def collect():
     out = {}
     for p in sorted(glob.glob(os.path.join(HERE, "c[0-9][0-9].py"))):
         name = os.path.basename(p)[:-3]
-        mod = importlib.import_module("checks." + name)
+        try:
+            mod = importlib.import_module("checks." + name)
+        except Exception as e:  # a builder may be mid-edit; not registered then
+            print("registry: skipping %s (%s)" % (name, e))
+            continue
         if getattr(mod, "READY", False) and hasattr(mod, "META"):
             out[name.upper()] = mod.META
     return out
